@@ -295,6 +295,15 @@ def antidist_cases(tier, seed):
     for d, keys in en.mixed_subsets(tier):
         if len(keys) <= (3 if tier == "thorough" or d == 2 else 2):
             yield {"d": d, "keys": keys, "kind": "dens", "form": "dm"}
+    # equal-modulus sets with relative phases around the (refuted) "(n-2)/(n-1)" overlap bound (after seeded change C11-5): membership is
+    # decided by the harness's own certified bracket, which depends on the phases, not only on the overlap moduli
+    for n_, rs in ((3, (0.4, 0.5, 0.55)), (4, (0.5, 0.6, 0.65, 0.66)), (5, (0.7, 0.74))):
+        if n_ == 5 and tier == "quick":
+            continue
+        for r in rs:
+            for pattern in range(len(en.GRAM_PHASES)):
+                if en.gram_kets(n_, r, pattern) is not None:
+                    yield {"kind": "gram", "n": n_, "r": r, "pattern": pattern, "form": "col"}
     for d in en.dims(tier):
         for key in ("e0", "g0"):
             for n in (2, 3):
@@ -494,6 +503,65 @@ def unambiguous_check(case):
     return ok(nontrivial and vals["primal"] > 1e-3, obs=[round(vals["primal"], 5), round(vals["dual"], 5)], calls=2, bracket=b is not None)
 
 
+# ------------------------------------------------------------------------------------------------ C11.history
+# Added after seeded change C11-6 (solver options of one call leaked into a module-level default and changed later calls): a
+# breadth-first exploration of call histories over the public functions, one event being a call with deliberately loose solver options.
+# the loose-options event comes LAST: the explorer computes the from-initial-state value of every event in this order, so all reference
+# values are taken before any call that might leave something behind in the process
+HIST_EVENTS = ["exclusion_dual", "exclusion_primal_ldl", "antidistinguishable_trine", "overlap_trine", "antidistinguishable_pair", "loose_options"]
+
+
+def history_cases(tier, seed):
+    yield {"ens": ["e0", "+", "+i"], "prior": "ramp", "depth": 2}
+    yield {"ens": ["e0", "g0", "g1"], "prior": "g0", "depth": 2 if tier == "quick" else 3}
+
+
+def history_check(case):
+    from mc.history import explore
+    from toqito.state_opt import state_exclusion
+    from toqito.state_props import common_quantum_overlap, is_antidistinguishable
+    from toqito.states import trine
+
+    kets = [catalog.ket(2, k).reshape(-1, 1) for k in case["ens"]]
+    probs = [float(x) for x in en.weights(len(kets), case["prior"])]
+    pair = [catalog.ket(2, "e0").reshape(-1, 1), catalog.ket(2, "pi8ph").reshape(-1, 1)]
+
+    def apply(_, ev):
+        if ev == "loose_options":
+            v, exc = call(state_exclusion, [k.copy() for k in kets], list(probs), primal_dual="dual", abs_ipm_opt_tol=1e-2, rel_ipm_opt_tol=1e-2,
+                          abs_prim_fsb_tol=1e-2, rel_prim_fsb_tol=1e-2, abs_dual_fsb_tol=1e-2, rel_dual_fsb_tol=1e-2)
+            return "done" if exc is None else "EXC:" + type(exc).__name__
+        if ev == "exclusion_dual":
+            v, exc = call(state_exclusion, [k.copy() for k in kets], list(probs), primal_dual="dual")
+        elif ev == "exclusion_primal_ldl":
+            v, exc = call(state_exclusion, [k.copy() for k in kets], list(probs), primal_dual="primal", cvxopt_kktsolver="ldl")
+        elif ev == "antidistinguishable_trine":
+            v, exc = call(is_antidistinguishable, trine())
+            return ("EXC:" + type(exc).__name__) if exc is not None else bool(v)
+        elif ev == "antidistinguishable_pair":
+            v, exc = call(is_antidistinguishable, [k.copy() for k in pair])
+            return ("EXC:" + type(exc).__name__) if exc is not None else bool(v)
+        else:
+            v, exc = call(common_quantum_overlap, trine())
+            return ("EXC:" + type(exc).__name__) if exc is not None else round(float(np.real(v)), 4)
+        if exc is not None:
+            return "EXC:" + type(exc).__name__
+        return round(float(np.real(v[0] if isinstance(v, tuple) else v)), 4)
+
+    def same(a, b, ev):
+        if ev == "loose_options":
+            return True
+        if isinstance(a, (str, bool)) or isinstance(b, (str, bool)):
+            return a == b
+        return abs(a - b) <= 2e-4
+
+    stats, bad = explore(lambda: None, HIST_EVENTS, apply, lambda o: "stateless", lambda o, h: None, same, case["depth"])
+    for b in bad:
+        return viol(f"exclusion call history: {b['kind']} after {b.get('history')}: {b.get('after_history', '')} vs {b.get('from_initial', '')}",
+                    site="exclusion_history:" + b["kind"], observed=repr(b)[:300])
+    return ok(True, obs=[stats["transitions"], stats["histories"]], states=stats["states"], transitions=stats["transitions"], histories=stats["histories"])
+
+
 CLAUSES = [
     Clause("C11.min_error", min_error_cases, min_error_check, tol="ipm(1e-4); certificates 1e-3", chunk=6, weight=0.15, probe=4,
            doc="exclusion value in certified bracket, 0 <= value <= min prior, two-state closed form, primal = dual, returned operators are a "
@@ -507,4 +575,6 @@ CLAUSES = [
            doc="unambiguous exclusion: primal = dual (and inside the bracket of the documented SDP) where the solver returns a solution"),
     Clause("C11.named_states", named_states_cases, named_states_check, tol="alg(1e-9)", chunk=50, weight=0.0, probe=4,
            doc="trine / bb84 / pusey_barrett_rudolph return the documented kets"),
+    Clause("C11.history", history_cases, history_check, tol="ipm(2e-4)", chunk=1, weight=10.0, probe=1,
+           doc="BFS over call histories (incl. a call with loose solver options): every later value equals the value from the initial state"),
 ]
